@@ -65,6 +65,24 @@ def _bin(name):
     return os.path.join(os.environ.get("CODEC_DRIVER_BIN", vlib.TARGET_BIN), name)
 
 
+_workdirs = []
+
+
+def _workdir(prop, tier, seed):
+    """Per-run scratch directory (several seeds / tiers may run side by side); removed at the end of the run
+    unless CODEC_KEEP_WORK is set. Replay files are self-contained, nothing in here is needed afterwards."""
+    d = vlib.workdir(f"codec-{prop}-{tier}-s{seed}-{os.getpid()}")
+    _workdirs.append(d)
+    return d
+
+
+def _cleanup():
+    if os.environ.get("CODEC_KEEP_WORK"):
+        return
+    while _workdirs:
+        shutil.rmtree(_workdirs.pop(), ignore_errors=True)
+
+
 _built = False
 
 
@@ -326,7 +344,7 @@ def selftest_records(prop, line, mutate, wd, cfg, expect="VIOLATION"):
 
 def run_c01(tier, seed, verdict):
     cfg = TIERS[tier]
-    wd = vlib.workdir(f"C01-{tier}")
+    wd = _workdir("C01", tier, seed)
     cov = dict(drifts=0, mc=[])
     t = start_mc_values(cfg, seed, wd).wait(cfg["timeout"])
     cov["mc"].append(mc_must_hold(t, "round trip / skip length / nesting limit / conversion theorems, one state per value"))
@@ -384,7 +402,7 @@ def judge_records(prop, val, verdict, what):
 
 def run_c07(tier, seed, verdict):
     cfg = TIERS[tier]
-    wd = vlib.workdir(f"C07-{tier}")
+    wd = _workdir("C07", tier, seed)
     cov = dict(drifts=0, mc=[])
     half = max(2, cfg["workers"] // 2)
     tb = start_mc_bytes(cfg, wd, workers=cfg["workers"] - half + 2)
@@ -428,7 +446,7 @@ def run_c07(tier, seed, verdict):
 
 def run_c13(tier, seed, verdict):
     cfg = TIERS[tier]
-    wd = vlib.workdir(f"C13-{tier}")
+    wd = _workdir("C13", tier, seed)
     cov = dict(drifts=0, mc=[])
     half = max(2, cfg["workers"] // 2)
     tb = start_mc_bytes(cfg, wd, workers=cfg["workers"] - half + 2)
@@ -488,7 +506,10 @@ def run(prop, tier, seed):
     t0 = time.time()
     verdict = vlib.Verdict(prop)
     build()
-    coverage = dict(C01=run_c01, C07=run_c07, C13=run_c13)[prop](tier, seed, verdict)
+    try:
+        coverage = dict(C01=run_c01, C07=run_c07, C13=run_c13)[prop](tier, seed, verdict)
+    finally:
+        _cleanup()
     vlib.write_evidence(prop, tier, seed, "model_checking", coverage, time.time() - t0, verdict.violations, assumptions=ASSUMPTIONS[prop])
     log(f"[{prop}] {tier} seed={seed}: {verdict.violations} violation(s), {coverage.get('conformance_drifts', 0)} drift(s), "
         f"{time.time() - t0:.0f}s")
@@ -500,9 +521,16 @@ def replay(prop, path, seed):
     verdict = vlib.Verdict(prop)
     data = json.load(open(path))
     build()
-    wd = vlib.workdir(f"replay-{prop}")
+    wd = _workdir(prop, "replay", seed)
     cfg = TIERS["quick"]
     kind = data.get("kind")
+    try:
+        return _replay(prop, data, kind, wd, cfg, verdict)
+    finally:
+        _cleanup()
+
+
+def _replay(prop, data, kind, wd, cfg, verdict):
     if kind == "vector" and data.get("vector"):
         vp = os.path.join(wd, "vector.ndjson")
         with open(vp, "w") as f:
